@@ -427,7 +427,7 @@ func (g *Gen) payload() []byte {
 		}
 		return b
 	case 3:
-		return []byte(g.pick("", "a", "hello world", "a%b", "100% #1 & more", "x=y;z", "a,b,c", "Tab\there", "line\nbreak", "{\"a\":[1,2]}", "ünï", "a\\b", "a`b^c|d[e]f{g}h", "<>"))
+		return []byte(g.pick("", "a", "hello world", "a%b", "100% #1 & more", "x=y;z", "a,b,c", "Tab\there", "line\nbreak", "{\"a\":[1,2]}", "ünï", "a\\b", "a`b^c|d[e]f{g}h", "<>", "f(x)=1", "a(b)c d", "translate(5 5) rotate(45)", ")(", "a(b"))
 	case 4:
 		return []byte("GIF89a\x01\x00\x01\x00\x80\x00\x00\xff\xff\xff\x00\x00\x00!\xf9\x04\x01\x00\x00\x00\x00,\x00\x00\x00\x00\x01\x00\x01\x00\x00\x02\x02D\x01\x00;")
 	case 5:
